@@ -81,9 +81,20 @@ def is_active_victim(t: dict, inv: dict, it: int) -> bool:
     return bool(t['victim']) and et is not None and et * 1000 * 4 <= max(_pick(t['dur'], it), t.get('leak', 0))
 
 
+def exit_of(t: dict, it: int) -> int:
+    """What the harness must see as returncode: 0..255, or -N for a scripted death by signal N."""
+    rc = _pick(t['rc'], it)
+    return rc if rc < 0 else rc & 0xFF
+
+
+def tap_has_result_line(t: dict) -> bool:
+    """Does the scripted TAP stream contain at least one subtest line that is not a skip?"""
+    return any(x in ('ok', 'notok', 'todo') for x in (t['tap'] or '').split(','))
+
+
 def expected_results(t: dict, it: int) -> T.Set[str]:
     """Acceptable classifications of a run that ran to completion (no timeout, no interrupt)."""
-    rc = _pick(t['rc'], it) & 0xFF
+    rc = exit_of(t, it)
     if t['protocol'] == 'exitcode':
         if rc == 0:
             base = 'OK'
@@ -92,23 +103,27 @@ def expected_results(t: dict, it: int) -> T.Set[str]:
         elif rc == 99:
             base = 'ERROR'
         else:
-            base = 'FAIL'
+            base = 'FAIL'        # any other status, a death by signal included
         bases = {base}
     else:
         items = (t['tap'] or '').split(',')
+        if rc != 0:
+            # a TAP test whose program exits non-zero or is killed by a signal - whatever it printed before, also
+            # nothing at all or only skips: the documents do not say FAIL or ERROR; it must be bad
+            if t['should_fail']:
+                return {'FAIL', 'ERROR', 'EXPECTEDFAIL'}
+            return {'FAIL', 'ERROR'}
         if 'bail' in items:
             base = 'ERROR'
         elif 'notok' in items:
             base = 'FAIL'
         elif t['tap'] == 'skipall':
             base = 'SKIP'
+        elif not tap_has_result_line(t):
+            # exit 0 with no output / only skipped subtests: not fixed by the documents (never generated)
+            return {'SKIP', 'OK', 'ERROR'}
         else:
             base = 'OK'
-        if rc != 0:
-            # a TAP test whose program exits non-zero: the documents do not say FAIL or ERROR; it must be bad
-            if t['should_fail']:
-                return {'FAIL', 'ERROR', 'EXPECTEDFAIL'}
-            return {'FAIL', 'ERROR'}
         bases = {base}
     out = set()
     for b in bases:
@@ -122,8 +137,8 @@ def expected_results(t: dict, it: int) -> T.Set[str]:
 
 
 def rc_class(t: dict, it: int) -> str:
-    rc = _pick(t['rc'], it) & 0xFF
-    k = {0: 'exit0', 77: 'exit77', 99: 'exit99'}.get(rc, 'exitother')
+    rc = exit_of(t, it)
+    k = 'signal' if rc < 0 else {0: 'exit0', 77: 'exit77', 99: 'exit99'}.get(rc, 'exitother')
     if t['protocol'] == 'tap':
         k = 'tap-' + (t['tap'] or 'none').replace(',', '+') + '-' + k
     if t['should_fail']:
@@ -291,23 +306,28 @@ def check_run(proj: dict, inv: dict, evs: T.Sequence[dict], testlog: T.Optional[
     cnt('monitor:harness_result', len(h_result))
     cnt('diag:harness_overlap', sum(1 for r in records if r.get('ev') == 'h_overlap'))
     cnt('diag:shake_sleeps', sum(r.get('n', 0) for r in records if r.get('ev') == 'h_shake'))
-    signalled: T.Dict[int, T.List[int]] = {}
-    for r in records:
-        if r.get('ev') == 'h_signal':
-            signalled.setdefault(r['pid'], []).append(r['sig'])
+    sigrecs = [r for r in records if r.get('ev') == 'h_signal']
+
+    def signals_for(name: T.Any, it: T.Any, pid: T.Any) -> T.List[dict]:
+        """Signals the harness sent to this run's process (group).  Pids are recycled quickly on a busy machine, also
+        inside one `meson test`: only signals sent after this run's run() was entered belong to it."""
+        st = next((h for h in h_start if h['name'] == name and h['it'] == it), None)
+        since = st['t'] if st is not None else 0
+        return [x for x in sigrecs if x.get('pid') == pid and x.get('t', 0) >= since]
     for r in records:
         if r.get('ev') != 'h_reported':
             continue
         # the harness reports a test as timed out / interrupted: it must have tried to terminate the process and
         # the process must not be running any more.  Both are facts about calls made, not about clocks.
         cnt('monitor:kill_reported')
-        sigs = signalled.get(r.get('pid'), [])
+        srecs = signals_for(r.get('name'), r.get('it'), r.get('pid'))
+        sigs = [x['sig'] for x in srecs]
         gave_up = 'could not be killed' in str(r.get('additional_error'))
         if r.get('res') == 'TIMEOUT':
             # the limit can be observed late (load) but never early: time from run() entry to the first signal
             t = by.get(r.get('name'))
             st = next((h for h in h_start if h['name'] == r.get('name') and h['it'] == r.get('it')), None)
-            fs = next((x for x in records if x.get('ev') == 'h_signal' and x['pid'] == r.get('pid')), None)
+            fs = srecs[0] if srecs else None
             if t is not None and st is not None and fs is not None:
                 et = effective_timeout(t, inv)
                 cnt('monitor:timeout_not_early')
@@ -348,8 +368,8 @@ def check_run(proj: dict, inv: dict, evs: T.Sequence[dict], testlog: T.Optional[
                 V.append(('limit-passed-but-not-reported-TIMEOUT:' + str(res) +
                           (':pipe-held-by-descendant' if t.get('leak') else ''),
                           {'test': k[0], 'iteration': k[1], 'result': res, 'limit_s': r.get('timeout'),
-                           'signals_sent': signalled.get(r.get('pid'), [])}))
-        if not signalled.get(r.get('pid')):
+                           'signals_sent': [x['sig'] for x in signals_for(k[0], k[1], r.get('pid'))]}))
+        if not signals_for(k[0], k[1], r.get('pid')):
             if not (maxfail_hit_possible and res in (None, 'INTERRUPT')):
                 V.append(('limit-passed-but-process-group-never-signalled', {'test': k[0], 'iteration': k[1],
                                                                              'result': res}))
@@ -526,7 +546,11 @@ def check_run(proj: dict, inv: dict, evs: T.Sequence[dict], testlog: T.Optional[
             if res not in exp:
                 V.append((f'misclassified:{rc_class(t, it)}:expected-{"|".join(sorted(exp))}:got-{res}',
                           {'test': tid, 'iteration': it, 'spec': t, 'result': res, 'returncode': e.get('returncode')}))
-            if run is not None and run['ended'] and e.get('returncode') != (_pick(t['rc'], it) & 0xFF):
+            if exit_of(t, it) < 0:
+                cnt('cov:death_by_signal_' + t['protocol'])
+            if t['protocol'] == 'tap' and exit_of(t, it) != 0 and not tap_has_result_line(t):
+                cnt('cov:tap_no_result_line_but_bad_exit')
+            if run is not None and run['ended'] and e.get('returncode') != exit_of(t, it):
                 V.append(('returncode-mismatch', {'test': tid, 'scripted': _pick(t['rc'], it),
                                                   'logged': e.get('returncode')}))
 
